@@ -157,6 +157,8 @@ def draws_only_from_model(c0: bool, c1: bool, c2: bool, t0: int, t1: int, t2: in
             m2.environment.get_random_agent(T1)
             m2.environment.shuffle()
             m2.environment.remove_agent("a0")
+        if hx.P.get('completed'):
+            m.complete()                   # a model that has completed still draws from its own generator (closing lottery)
         tmpl = [T1] if w1 else []
         kw = {"tag": 1} if use_tag else {}
         spec = [a for a in res if ((not w1) or T1 in a.components) and ((not use_tag) or a.tag == 1)]
@@ -235,6 +237,55 @@ def seed_plumbing(seed: int, none_seed: bool) -> bool:
     return hx.end(True)
 
 
+class KwModel(Model):
+    """the usual user model: own parameters, everything else (seed, logger) handed to Model through **kwargs"""
+    __slots__ = ['n']
+
+    def __init__(self, n, **kwargs):
+        super().__init__(**kwargs)
+        self.n = n
+        self.complete()
+
+
+class SeedModel(Model):
+    __slots__ = ['n']
+
+    def __init__(self, n, seed=None):
+        super().__init__(seed, logger=NULL_LOGGER)
+        self.n = n
+        self.complete()
+
+
+def batch_seed(seed: int, which: int) -> bool:
+    """
+    pre: 0 <= which < 4
+    post: _
+    """
+    # a batch/search worker builds its model from its parameters alone: the seed among the parameters reaches
+    # random.Random unchanged - whether the model declares `seed` or takes it through **kwargs
+    import ECAgent.Batching as B
+    hx.begin()
+    rec = _RecRandomModule()
+    saved = Core.random
+    Core.random = rec
+    try:
+        cls = KwModel if which % 2 == 0 else SeedModel
+        if which < 2:
+            B.batch_run(cls, {"n": [1], "seed": seed}, max_timesteps=1)
+        else:
+            B.grid_search(cls, {"n": [1], "seed": seed}, lambda mm: 0, max_timesteps=1)
+    finally:
+        Core.random = saved
+    hx.reach('built')
+    if len(rec.made) != 1:
+        return hx.end(hx.fail("models built by the runner", got=len(rec.made)))
+    obj, a, k = rec.made[0]
+    if k or len(a) != 1 or a[0] is not seed:
+        return hx.end(hx.fail("the worker's model was not seeded with the seed among its parameters", args=a, kwargs=k,
+                              model_class=cls.__name__))
+    return hx.end(True)
+
+
 class _LogSys(Core.System):
     def execute(self):
         self.model.environment.components.setdefault("log", []).append(self.id)
@@ -299,7 +350,8 @@ def obligations(tier):
     for service in ("pick", "shuffle"):
         parts += [{"n": 2, "world": "plain", "service": service}, {"n": 3, "world": "plain", "service": service},
                   {"n": 2, "world": "plain", "service": service, "other": True}, {"n": 2, "world": "grid", "service": service},
-                  {"n": 2, "world": "plain", "service": service, "rehost": True}]
+                  {"n": 2, "world": "plain", "service": service, "rehost": True},
+                  {"n": 2, "world": "plain", "service": service, "completed": True}]
         if tier != "quick":
             parts += [{"n": 3, "world": "space", "service": service}, {"n": 3, "world": "grid", "service": service, "other": True}]
     return [
@@ -310,6 +362,8 @@ def obligations(tier):
           labels=("reregistered",), timeout=600, group=1, encoded=(Core.SystemManager.add_system, Core.SystemManager.remove_system,
                                                                     Core.SystemManager.execute_systems),
           bounds={"systems": "3..%d with string ids" % (4 if tier == "quick" else 5), "PYTHONHASHSEED": "pinned per partition: 1..%d" % (3 if tier == "quick" else 6)}),
+        X("batch_seed", batch_seed, labels=("built",), timeout=300,
+          encoded=(Model.__init__,), bounds={"seed": "all ints", "runner": "batch_run / grid_search", "model": "seed declared / via **kwargs"}),
         X("seed_plumbing", seed_plumbing, parts=[{"positional": True}, {"positional": False}], labels=("seed_zero", "no_seed"),
           timeout=300, encoded=(Model.__init__,)),
     ]
